@@ -838,7 +838,13 @@ class ExcelCompiler:
                 bounded_addr = str(self.eval(cell_range))
                 bounded_addr_cell = self.cell_map.get(bounded_addr)
                 if bounded_addr_cell.needs_calc:
-                    self._evaluate(bounded_addr)
+                    try:
+                        self._evaluate(bounded_addr)
+                    except BaseException:
+                        if self.cycles:
+                            # the calc ended without a value for the range
+                            cell_range.wip = False
+                        raise
                 data = bounded_addr_cell.value
 
             elif cell_range.formula is None:
